@@ -45,6 +45,8 @@ pub enum Sem {
     None,
     Dot { dot: DotT },
     Pn { dot: DotT, pos: bool },
+    /// counter increment / decrement REQUESTED through the API (steps), with the dot the API returned
+    Inc { dot: DotT, steps: u64, pos: bool },
     Val { v: i64 },
     Lww { val: i64, marker: i64 },
     SetAdd { dot: DotT, members: Vec<u8> },
@@ -62,7 +64,7 @@ impl Sem {
     /// the dot this op consumes, if any
     pub fn dot(&self) -> Option<DotT> {
         match self {
-            Sem::Dot { dot } | Sem::Pn { dot, .. } | Sem::SetAdd { dot, .. } | Sem::Put { dot, .. } | Sem::MapUp { dot, .. } | Sem::ListIns { dot, .. } | Sem::ListDel { dot, .. } => Some(*dot),
+            Sem::Dot { dot } | Sem::Pn { dot, .. } | Sem::Inc { dot, .. } | Sem::SetAdd { dot, .. } | Sem::Put { dot, .. } | Sem::MapUp { dot, .. } | Sem::ListIns { dot, .. } | Sem::ListDel { dot, .. } => Some(*dot),
             _ => None,
         }
     }
